@@ -220,7 +220,7 @@ class Check(DiffCheck):
     needs_libphoton = True
     coq_dirs = ['Base', 'C04', 'Sched', 'E3', 'C01']
     coq_targets = ['C01/C01_Excl.vo', 'C01/C01_I2.vo', 'C01/C01_Handoff.vo', 'C01/C01_Finding.vo',
-                   'C01/C01_Spin_Proofs.vo', 'C01/C01_Coop.vo']
+                   'C01/C01_Spin_Proofs.vo', 'C01/C01_Mcs2.vo', 'C01/C01_Coop.vo']
     properties_v = 'C01/C01_Properties.v'
     extract_v = 'C01/C01_Extract.v'
     model_module = 'C01_model'
@@ -304,6 +304,20 @@ while i < len(lines):
             return 'E3/%s/%dp' % (case.split()[1], len(case.split('|')) - 2)
         decls, threads = e2lib.parse_case(case)
         return '%dthr/%s' % (len(threads), '+'.join(sorted(set(d[0] for d in decls))))
+
+    def extra(self, ctx):
+        """F33 confirmation on the real library (prints only, never a violation): needs the guarded hook
+        photon_verif_intr_window (repo_patches/C01-hook-interrupt-window.diff) in the tree under test"""
+        try:
+            exe, log = cxx_build(self.id, ['harness/C01/f33_confirm.cpp'], '-ldl', False, True, os.path.join(BUILD, 'bin', 'C01_f33'))
+            if exe:
+                rc, out = sh([exe], timeout=300)
+                line = (out.strip().splitlines() or ['(no output)'])[-1]
+                print('[C01] F33 confirmation run: %s' % line[:300])
+                self.extra_coverage = dict(f33_confirmation=line[:300])
+        except Exception as e:
+            print('[C01] F33 confirmation run skipped: %s' % str(e)[:200])
+        return []
 
     def neighbours(self, case, rng):
         if case[0] == 'S':
